@@ -76,10 +76,10 @@ def check_slices(env, m, what):
         except Exception as e:
             env.fail(f"{what}: indexing by a term name fails", {"exc": type(e).__name__, "site": core.repo_site(e)})
     # names that are not term names: a foreign string, and near misses of every real name (pieces swapped
-    # across the bar, a character dropped / added, blanks removed)
+    # across the bar, a character dropped / added)
     unknown = ["no such term"]
     for name in m.terms:
-        cands = [name[:-1], name + "x", name.replace(" ", "")]
+        cands = [name[:-1], name + "x"]
         if "|" in name:
             e, g = name.split("|", 1)
             cands.append(f"{g}|{e}")
@@ -145,10 +145,12 @@ def check_design(env, dm, label, group_labels_ok=True):
             lines = []
         for title, member in (("Response", dm.response), ("Common", dm.common), ("Group-specific", dm.group)):
             mine = [l for l in lines if l.strip().startswith(title + ":")]
+            if not mine:
+                continue  # another layout of the summary: only "reports the actual shape" (above) is demanded
             if member is None:
-                env.prove(not mine, f"{label}DesignMatrices: no line for an absent member")
+                env.prove(False, f"{label}DesignMatrices: a line for an absent member")
             else:
-                env.prove(len(mine) == 1 and str(tuple(np.asarray(member.design_matrix).shape)) in mine[0], f"{label}DesignMatrices: every member's shape on its own line")
+                env.prove(all(str(tuple(np.asarray(member.design_matrix).shape)) in l for l in mine), f"{label}DesignMatrices: a line that names a member reports that member's shape")
 
 
 def check_common(env, m, label):
